@@ -23,6 +23,13 @@ Theorem bound_refuted :
 Proof. exact C15Proofs.bound_refuted_lemma. Qed.
 Print Assumptions bound_refuted.
 
+(* the general shape: with Max >= 1, k forks requested and started while nothing
+   is tracked yet all pass both gates, and all k insert - for every k *)
+Theorem bound_refuted_burst :
+  forall c k, (0 < c_max c)%N -> tracked (run no_fixes c (burst k)) = N.of_nat k.
+Proof. exact C15Proofs.bound_refuted_burst_lemma. Qed.
+Print Assumptions bound_refuted_burst.
+
 (* what does hold: tracked + forks in flight never exceeds Max by more than
    (the largest number of forks ever in flight at once) - 1, as long as every
    inserted entry stems from a started fork ... *)
